@@ -29,6 +29,11 @@ CLAIMED.update({
    technique="runtime law monitor: for every ordered pair of a 163-value pool the observed results of ==, !=, in, switch (both operand orders, several provenances) are checked against the algebraic laws and reference rules of the statement",
    text="All 26569 ordered pairs of the pool (nil, bools, boundary ints and floats incl. 1e5/1e6/2^53 edges, +-0, inf, NaN, numeral strings in integer/fraction/exponent spelling, non-numerals, nested slices and maps) are enumerated completely each run, each observed through ==, !=, in, switch in both orders and with operands supplied as literals, variables and container elements; thorough adds 1M random pairs.",
    note="Trusted: Go's == on same-type primitives, anko's own observed <=/>= as the int/float reference (as the statement says), strconv for decimal numerals. Bool-vs-other coercions, non-decimal numerals and rounding-only equalities are unspecified: only symmetry/negation/in/switch consistency is checked for them."),
+ "C07": dict(
+   cat="exploration", ref="DESIGN.md sections 2.1 and 3, C07",
+   technique="offline checker of recorded probe traces against an executable reference model: exact equality with the unique left-to-right, exactly-once, short-circuit-respecting evaluation trace, over a PRNG-sampled product of call shapes and operator/literal forms",
+   text="Generated expression forms whose leaves are side-effecting probes, over every call path (script functions of 0-7 parameters = direct and reflect paths, variadic script functions, Go functions fixed/variadic with interface and typed parameters) x plain/spread-literal/spread-variable x direct/go/defer/anonymous/member callee x right/too-few/too-many arguments x failing or unconvertible operand i; list/map literals, all binary operators, index, 2/3-index slices, return lists, multi-assignment, in, switch subject, len, op-assign on indexed targets, && || ?: ?? with every deciding operand class. Goroutine bodies report on a separate trace compared as a multiset after a completion barrier.",
+   note="Trusted: internal/refmodel. A call refused for its argument count may have evaluated any prefix of its operands (each at most once) — accepted. The order of an assignment's left-hand index expressions relative to its right-hand side is not constrained."),
  "C08": dict(
    cat="exploration", ref="DESIGN.md sections 2.1 and 3, C08",
    technique="offline checker of recorded probe traces against an executable reference model (structured control flow), over PRNG-generated nestings of branch and loop forms with break/continue/return at every position",
